@@ -200,7 +200,7 @@ func main() {
 		}
 		return true
 	}
-	for i := 0; i < 200; i++ {
+	for i := 0; i < 1500; i++ { // up to about 30 s on a loaded machine; normally a few iterations
 		w.PumpAll()
 		if quiet() {
 			time.Sleep(20 * time.Millisecond)
@@ -218,7 +218,7 @@ func main() {
 			}
 		}
 		return true
-	}, 5*time.Second)
+	}, 30*time.Second)
 	w.PumpAll()
 	f, _ := os.Create(*out)
 	bw := bufio.NewWriter(f)
